@@ -232,6 +232,7 @@ class SchemaGen:
         rng.shuffle(self.el_pool)
         self.used_global = set()
         self.blocked = set()          # complex types the type under construction must not mention
+        self.local_used = set()       # names of local element declarations
 
     def has(self, x):
         return x in self.f
@@ -505,12 +506,15 @@ class SchemaGen:
                 names.remove(x)
             gm = (1, 1) if self.m["groups"][g]["particle"]["k"] == "all" else (mn, mx)
             return {"k": "group", "name": g, "min": gm[0], "max": gm[1]}
-        local_names = [n for n in names if n not in self.m["elements"] or True]
+        # local element names and global element names are kept apart: a local element that shares its qualified name
+        # with a global element of another type is legal, but what goes wrong then is class naming (C07), not C02
+        local_names = [n for n in names if n not in self.m["elements"]]
         if not local_names:
-            local_names = [self.fresh(EL_NAMES, set())]
+            local_names = [self.fresh([x for x in EL_NAMES if x not in self.m["elements"]] or EL_NAMES, set(names))]
             names.append(local_names[0])
         name = r.choice(local_names)
         names.remove(name)
+        self.local_used.add(name)
         decl = self.gen_local_decl(f, name, owner)
         return {"k": "el", "decl": decl, "min": mn, "max": mx}
 
@@ -591,7 +595,8 @@ class SchemaGen:
             c["particle"] = p
             # recursion: an optional child of this very type
             if self.has("recursion") and name and r.random() < 0.5 and p["k"] == "seq":
-                rn = self.fresh([n for n in names] or EL_NAMES, set())
+                rn = self.fresh([n for n in names if n not in self.m["elements"]] or EL_NAMES, set(self.m["elements"]))
+                self.local_used.add(rn)
                 if rn in names:
                     names.remove(rn)
                 d = {"name": rn, "type": ["c", name], "nillable": False, "form": None, "default": None, "fixed": None,
@@ -726,7 +731,7 @@ class SchemaGen:
         # leaf global elements (targets of refs, heads of substitution groups)
         if self.has("refs") or self.has("subst"):
             for _ in range(r.choice([1, 2, 3])):
-                n = self.fresh(self.el_pool, set(m["elements"]))
+                n = self.fresh(self.el_pool, set(m["elements"]) | self.local_used)
                 f = self.pick_file()
                 m["elements"][n] = {"name": n, "type": self.simple_ref(f), "nillable": False, "form": None, "default": None,
                                     "fixed": None, "global": True, "abstract": False, "subst": None, "file": f}
@@ -772,7 +777,7 @@ class SchemaGen:
                 m["ctypes"][dn] = d
         # global elements of complex type; substitution groups
         for _ in range(r.choice([1, 2]) if self.has("subst") else r.choice([0, 1, 2])):
-            n = self.fresh(self.el_pool, set(m["elements"]))
+            n = self.fresh(self.el_pool, set(m["elements"]) | self.local_used)
             f = self.pick_file()
             cts = [x for x, c in m["ctypes"].items() if self.visible(f, c["file"])]
             if not cts:
@@ -791,7 +796,7 @@ class SchemaGen:
             for h in picked:
                 he = m["elements"][h]
                 for _ in range(r.choice([1, 2])):
-                    n = self.fresh(self.el_pool, set(m["elements"]))
+                    n = self.fresh(self.el_pool, set(m["elements"]) | self.local_used)
                     f = min(he["file"], self.pick_file())
                     t = he["type"]
                     if t[0] == "c":
@@ -826,7 +831,7 @@ class SchemaGen:
                     he["abstract"] = True
         # root
         rn = self.fresh(["root", "doc", "Root", "envelope", "message"] + ([x for x in m["ctypes"]][:1] if r.random() < 0.1 else []),
-                        set(m["elements"]))
+                        set(m["elements"]) | self.local_used)
         cts = list(m["ctypes"])
         k = r.random()
         if cts and k < 0.35:
@@ -845,7 +850,8 @@ class SchemaGen:
                         extra.append({"k": "ref", "name": n, "min": mn, "max": mx})
                         have |= {n} | set(self.subst_members(n))
                 for n in cts:
-                    en = self.fresh([x for x in self.el_pool if x not in have] or EL_NAMES, have)
+                    en = self.fresh([x for x in self.el_pool if x not in have and x not in m["elements"]] or EL_NAMES,
+                                    have | set(m["elements"]))
                     if r.random() < 0.6:
                         mn, mx = self.gen_occ()
                         d = {"name": en, "type": ["c", n], "nillable": self.has("nillable") and r.random() < 0.2, "form": None,
